@@ -166,14 +166,33 @@ func ruleGuardBeforePull(c *Ctx, r *R) {
 			r.undecided(name+"|missing", token.NoPos, "anchor not found")
 			continue
 		}
-		ps := pullsOn(fn, "inner", "Next")
+		ps := append(pullsOn(fn, "inner", "Next"), pullsOn(fn, "inner", "Peek")...)
 		if len(ps) == 0 {
 			r.violated(name+"|pull", fn.Pos(), "While never pulls")
 		}
 		for i, p := range ps {
 			ok, _ := guardedByField(p.Block(), "done", token.NOT)
-			if strings.HasPrefix(name, "stream") {
+			if strings.HasPrefix(name, "stream") && p.Call.Method.Name() == "Next" {
 				ok2, _ := guardedByField(p.Block(), "has", token.NOT)
+				if !ok2 {
+					// the look-ahead lives in a Peekable source: this Next only consumes the item a successful Peek of the
+					// same source has just shown (no new pull)
+					for _, pk := range pullsOn(fn, "inner", "Peek") {
+						if pk.Call.Value != p.Call.Value && path(pk.Call.Value) != path(p.Call.Value) {
+							continue
+						}
+						if !(pk.Block() == p.Block() && idxIn(pk) < idxIn(p)) && !(pk.Block() != p.Block() && pk.Block().Dominates(p.Block())) {
+							continue
+						}
+						if _, e := fallibleCall(pk); e != nil {
+							for _, g := range guardsOf(p.Block()) {
+								if cf, okc := g.asCmp(); okc && cf.x == e && cf.op == token.EQL && isNilConst(cf.y) {
+									ok2 = true
+								}
+							}
+						}
+					}
+				}
 				ok = ok && ok2
 			}
 			r.ok(ok, name+"|pull#"+itoa(i+1), p.Pos(), "While must not pull after it reported the end (pull only under !done; the stream version also only when no item is parked)")
